@@ -44,7 +44,6 @@ Definition log_levels_A (tolv : Q -> Q) (base : Z) (mn mx : Q) (levels : list le
   negb (Qeqb mn mx) &&
   forallb (fun lv => log_level_exact base (log_e base mn mx) (lf_neg mn mx) (lf_emin mn mx) (lf_emax mn mx) tolv lv ||
                      existsb (log_level_adm1 base (lf_neg mn mx) (lf_emin mn mx) (lf_emax mn mx) tolv lv) (log_adm base mn mx)) levels.
-Definition is_found (r : flres) : bool := match r with FL_ok _ => true | _ => false end.
 Definition log_l45 (nomax : Z) (found : bool) (mn mx ao bo : Q) (major3 : list xreal) : bool :=
   (nomax <? 3)%Z || negb found || log_law45 (lf_neg mn mx) (lf_emin mn mx) (lf_emax mn mx) (lf_emin ao bo) (lf_emax ao bo) major3.
 
@@ -234,4 +233,173 @@ Proof.
     rewrite (obs_close_length _ _ _ H3). unfold log_ticks_at'. destruct (lf_neg mn mx); [now rewrite neg_rev_length | reflexivity].
   - intros Hb He. exists (log_ticks_at' b (log_e b mn mx) (lf_neg mn mx) (lf_emin mn mx) (lf_emax mn mx) false (lv_level lv)), (log_count (log_e b mn mx) false (lv_level lv)).
     split; [now apply log_level_ok_at|]. auto.
+Qed.
+
+(* ---------- Nice ---------- *)
+Lemma log_search_eq o e ro : log_search o e ro = find_level o (log_count e ro) 0.
+Proof. unfold log_search. apply find_level_ext. intro l. apply log_count_capped_eq. Qed.
+Lemma log_nice_degenerate b mn mx o : (mn == mx)%Q -> log_nice b mn mx o = (mn, mx).
+Proof. intro E. unfold log_nice, log_nice_gen. apply Qeqb_true in E. now rewrite E. Qed.
+Lemma log_nice_fail b mn mx o : find_level o (log_count (log_e b mn mx) true) 0 = FL_fail -> log_nice b mn mx o = (mn, mx).
+Proof.
+  intro F. unfold log_nice, log_nice_gen. destruct (Qeqb mn mx); [reflexivity|]. rewrite (log_fold_proj mn mx).
+  fold (log_e b mn mx). now rewrite F.
+Qed.
+
+(* Nice(o) on the Log domain [mn, mx]: the observed new ends are finite and within tolerance of values
+   x, y that never shrink the domain, are the old ends when the domain is degenerate or no level of the
+   window fits, and on a positive domain are each the old end or a power of the base that is a positive
+   finite float64 *)
+Definition log_nice_spec (tolv : Q -> Q) (b : Z) (o : tickopts) (mn mx : Q) (st : Z) (a c : xreal) : Prop :=
+  st = 0 /\ exists ao bo x y, a = XFin ao /\ c = XFin bo /\ (Qabs (ao - x) <= tolv x)%Q /\ (Qabs (bo - y) <= tolv y)%Q /\
+  let e := log_e b mn mx in
+  ((mn <= mx)%Q -> (x <= mn)%Q /\ (mx <= y)%Q) /\
+  ((mn == mx)%Q -> x = mn /\ y = mx) /\
+  ((forall lo hi, level_bounds o = Some (lo, hi) -> nonincreasing (log_count e true) lo hi) ->
+   (o_max o < 1 \/ level_bounds o = None \/
+    exists lo hi, level_bounds o = Some (lo, hi) /\ forall l, lo <= l <= hi -> o_max o < log_count e true l) -> x = mn /\ y = mx) /\
+  ((0 < mn)%Q -> (mn < mx)%Q ->
+     (x = mn \/ exists n, x = qpow b n /\ f64_pos_ok x = true) /\ (y = mx \/ exists n, y = qpow b n /\ f64_pos_ok y = true)).
+
+Theorem log_nice_E_sound tolv o b mn mx st a c :
+  log_nice_E tolv o b mn mx st a c = true -> log_nice_spec tolv b o mn mx st a c.
+Proof.
+  intro H. unfold log_nice_E in H. destruct (log_nice_xy o b mn mx) as [x y] eqn:Exy. cbn [fst snd] in H.
+  apply andb_prop in H. destruct H as [H H3]. apply andb_prop in H. destruct H as [H1 H2]. apply Z.eqb_eq in H1.
+  apply xwithin_fin in H2, H3. destruct H2 as (ao & -> & Ha). destruct H3 as (bo & -> & Hb).
+  split; [exact H1|]. exists ao, bo, x, y. split; [reflexivity|]. split; [reflexivity|]. split; [exact Ha|]. split; [exact Hb|].
+  unfold log_nice_xy, log_rn, log_e in Exy. rewrite (log_nice_from_eq b mn mx o _ _ _ (log_fold_proj mn mx)) in Exy.
+  cbv zeta. split; [|split; [|split]].
+  - intro Ho. exact (log_nice_expands b mn mx o x y Ho Exy).
+  - intro E. rewrite (log_nice_degenerate b mn mx o E) in Exy. injection Exy as <- <-. auto.
+  - intros Mono No. rewrite (log_nice_fail b mn mx o (proj2 (find_level_fails_iff o _ 0 Mono) No)) in Exy. injection Exy as <- <-. auto.
+  - intros Hp Hlt. exact (log_nice_ends_are_powers b mn mx o x y Hp Hlt Exy).
+Qed.
+
+(* a level of the window fits Nice's rounded-out count (which is non-increasing on the window): Nice finds a level *)
+Definition log_nice_fits (b : Z) (o : tickopts) (mn mx : Q) : Prop :=
+  ~ (mn == mx)%Q /\ exists lo hi l, level_bounds o = Some (lo, hi) /\ 1 <= o_max o /\
+    nonincreasing (log_count (log_e b mn mx) true) lo hi /\ lo <= l <= hi /\ log_count (log_e b mn mx) true l <= o_max o.
+Lemma log_found_of_fits b o mn mx : log_nice_fits b o mn mx -> is_found (log_rn o b mn mx) = true.
+Proof.
+  intros (Hn & lo & hi & l & Hb & Hm & Mono & Hl & Fit). unfold log_rn.
+  assert (E1 : Qeqb mn mx = false) by (destruct (Qeqb mn mx) eqn:E; [gb_bool; contradiction | reflexivity]).
+  rewrite E1, log_search_eq. destruct (find_level o (log_count (log_e b mn mx) true) 0) as [l'| |] eqn:F; [reflexivity| |].
+  - exfalso. assert (Mono' : forall lo0 hi0, level_bounds o = Some (lo0, hi0) -> nonincreasing (log_count (log_e b mn mx) true) lo0 hi0).
+    { intros lo0 hi0 Hb0. rewrite Hb in Hb0. injection Hb0 as <- <-. exact Mono. }
+    destruct (proj1 (find_level_fails_iff o _ 0 Mono') F) as [A|[A|(lo' & hi' & A & N)]]; [lia | congruence |].
+    rewrite Hb in A. injection A as <- <-. specialize (N l Hl). lia.
+  - exfalso. exact (find_level_no_fuel o _ 0 F).
+Qed.
+
+(* 45 on a Log scale: the new ends lie within one ratio of neighbouring major ticks of the old ones *)
+Lemma xs_fin_some : forall l t, xs_fin l = Some t -> l = map XFin t.
+Proof.
+  induction l as [|x l IH]; intros t H.
+  - cbn in H. injection H as <-. reflexivity.
+  - unfold xs_fin in H. cbn [fold_right] in H. fold (xs_fin l) in H. destruct x as [| |q]; try discriminate.
+    destruct (xs_fin l) as [t'|]; [|discriminate]. injection H as <-. cbn. f_equal. now apply IH.
+Qed.
+Local Open Scope Q_scope.
+Definition log_law45_spec (neg : bool) (emin emax emin3 emax3 : Q) (major3 : list xreal) : Prop :=
+  exists t, major3 = map XFin t /\
+  let t' := if neg then rev (map Qopp t) else t in
+  exists t0 t1 r u1 u0 r', t' = t0 :: t1 :: r /\ rev t' = u1 :: u0 :: r' /\
+    emin * t0 <= emin3 * t1 * (1 + e9) /\ emax3 * u0 <= emax * u1 * (1 + e9).
+Lemma log_law45_sound neg emin emax emin3 emax3 major3 :
+  log_law45 neg emin emax emin3 emax3 major3 = true -> log_law45_spec neg emin emax emin3 emax3 major3.
+Proof.
+  unfold log_law45, log_law45_spec. destruct (xs_fin major3) as [t|] eqn:E; [|discriminate]. intro H.
+  exists t. split; [now apply xs_fin_some|]. cbv zeta.
+  destruct (if neg then rev (map Qopp t) else t) as [|t0 [|t1 r]]; try discriminate.
+  destruct (rev (t0 :: t1 :: r)) as [|u1 [|u0 r']]; try discriminate.
+  apply andb_prop in H. destruct H as [H1 H2]. apply Qleb_true in H1, H2. exists t0, t1, r, u1, u0, r'. auto.
+Qed.
+Lemma log_l45_sound nomax found mn mx ao bo major3 : log_l45 nomax found mn mx ao bo major3 = true ->
+  (3 <= nomax)%Z -> found = true -> log_law45_spec (lf_neg mn mx) (lf_emin mn mx) (lf_emax mn mx) (lf_emin ao bo) (lf_emax ao bo) major3.
+Proof.
+  unfold log_l45. intros H Hm ->. apply Bool.orb_true_iff in H. destruct H as [H|H]; [|now apply log_law45_sound].
+  apply Bool.orb_true_iff in H. destruct H as [H|H]; [apply Z.ltb_lt in H; lia | discriminate].
+Qed.
+
+(* ================= the case predicate ================= *)
+Definition log_case_gen (G : bool -> bool -> Prop -> Prop) (Lw : bool -> Prop -> Prop) (c : sccase) : Prop :=
+  let ob := sc_ob c in let base := sc_base c in let mn := sc_mn c in let mx := sc_mx c in
+  let o := sc_o c in let no := so_no ob in let tolv := lg_tolv in
+  exists ao bo, so_nmin ob = XFin ao /\ so_nmax ob = XFin bo /\
+  (* the observed new domain is a Log domain again *)
+  (ao <= bo /\ 0 < ao * bo) /\
+  let E20 := log_levels_E tolv base mn mx (so_levels ob) in
+  let E30 := log_nice_E tolv no base mn mx (so_nst ob) (XFin ao) (XFin bo) in
+  let E36 := log_ticks_E tolv no base ao bo (so_st3 ob) (so_major3 ob) None in
+  let E37 := log_nice_E tolv no base ao bo (so_nst2 ob) (so_nmin2 ob) (so_nmax2 ob) in
+  let bl := negb E30 || negb E36 || negb E37 in
+  (* 10: Ticks(o) *)
+  G (log_ticks_E tolv o base mn mx (so_st ob) (so_major ob) (Some (so_minor ob)))
+    (log_ticks_A tolv o base mn mx (so_st ob) (so_major ob) (Some (so_minor ob)))
+    (log_ticks_spec tolv base o mn mx (so_st ob) (so_major ob) (Some (so_minor ob))) /\
+  (* 20: CountTicks(l), TicksAtLevel(l) for every recorded level *)
+  G E20 (log_levels_A tolv base mn mx (so_levels ob)) (Forall (log_level_spec tolv base mn mx) (so_levels ob)) /\
+  (* 21 *)
+  Lw (negb E20) (forall l1 a b l2, so_levels ob = l1 ++ a :: b :: l2 -> (lv_level a <= lv_level b)%Z -> (lv_count b <= lv_count a)%Z) /\
+  (* 30: Nice(o') *)
+  G E30 (log_nice_A tolv no base mn mx (so_nst ob) (XFin ao) (XFin bo)) (log_nice_spec tolv base no mn mx (so_nst ob) (XFin ao) (XFin bo)) /\
+  (* 35 *)
+  (ao <= mn /\ mx <= bo) /\
+  (* 36, 37: Ticks(o') and Nice(o') on the observed new domain *)
+  G E36 (log_ticks_A tolv no base ao bo (so_st3 ob) (so_major3 ob) None) (log_ticks_spec tolv base no ao bo (so_st3 ob) (so_major3 ob) None) /\
+  G E37 (log_nice_A tolv no base ao bo (so_nst2 ob) (so_nmin2 ob) (so_nmax2 ob))
+        (log_nice_spec tolv base no ao bo (so_nst2 ob) (so_nmin2 ob) (so_nmax2 ob)) /\
+  (* 40 *)
+  Lw bl ((3 <= o_max no)%Z -> so_nst2 ob = 0%Z /\ exists a2 b2, so_nmin2 ob = XFin a2 /\ so_nmax2 ob = XFin b2 /\
+           Qabs (a2 - ao) <= tolv ao /\ Qabs (b2 - bo) <= tolv bo) /\
+  (* 41 *)
+  Lw bl ((3 <= o_max no)%Z -> log_nice_fits base no mn mx -> exists f rest t0 tl, so_major3 ob = f :: rest /\ f = XFin t0 /\
+           last (so_major3 ob) f = XFin tl /\ Qabs (t0 - ao) <= tolv ao /\ Qabs (tl - bo) <= tolv bo) /\
+  (* 43 *)
+  (~ ao == bo -> exists p q, so_map0 ob = XFin p /\ so_map1 ob = XFin q /\ Qabs p <= e12 /\ Qabs (q - 1) <= e12) /\
+  (* 45 *)
+  Lw bl ((3 <= o_max no)%Z -> log_nice_fits base no mn mx ->
+         log_law45_spec (lf_neg mn mx) (lf_emin mn mx) (lf_emax mn mx) (lf_emin ao bo) (lf_emax ao bo) (so_major3 ob)).
+
+Definition log_case_ok (c : sccase) : Prop := log_case_gen G_exact L_exact c.
+Definition log_case_borderline (c : sccase) : Prop := log_case_gen G_border L_border c.
+
+Lemma log_groups_case (G : bool -> bool -> Prop -> Prop) (Lw : bool -> Prop -> Prop) cd c ao bo :
+  (forall E A (P : Prop), gok cd E A -> (E = true -> P) -> G E A P) ->
+  (forall H amb (P : Prop), lok cd H amb -> (H = true -> P) -> Lw amb P) ->
+  log_groups cd c ao bo -> log_case_gen G Lw c.
+Proof.
+  intros HG HL [t1 t2 t3 t4 t5 t6 Fin Dom K10 K20 K21 K30 K35 K36 K37 b1 b2 K40 K41 K43 K45]. subst t1 t2 t3 t4 t5 t6 b1 b2.
+  unfold log_case_gen. cbv zeta. exists ao, bo. split; [exact (proj1 Fin)|]. split; [exact (proj2 Fin)|].
+  apply andb_prop in K35. destruct K35 as [K35a K35b]. apply Qleb_true in K35a, K35b.
+  apply andb_prop in Dom. destruct Dom as [D1 D2]. apply Qleb_true in D1. apply Qltb_true in D2.
+  repeat match goal with |- _ /\ _ => split end.
+  - exact D1.
+  - exact D2.
+  - eapply HG; [exact K10|]. now apply log_ticks_E_sound.
+  - eapply HG; [exact K20|]. intros E. apply Forall_forall. intros lv Hlv.
+    apply log_level_exact_sound. exact (proj1 (forallb_forall _ _) E lv Hlv).
+  - eapply HL; [exact K21|]. intro E. now apply counts_noninc_sound.
+  - eapply HG; [exact K30|]. now apply log_nice_E_sound.
+  - exact K35a.
+  - exact K35b.
+  - eapply HG; [exact K36|]. now apply log_ticks_E_sound.
+  - eapply HG; [exact K37|]. now apply log_nice_E_sound.
+  - eapply HL; [exact K40|]. intros E Hm. now apply (law40_sound _ _ _ _ _ _ _ E).
+  - eapply HL; [exact K41|]. intros E Hm Hf. apply (law41_sound _ _ _ _ _ _ E Hm). now apply log_found_of_fits.
+  - intro Hn. now apply (law43_sound _ _ _ _ K43).
+  - eapply HL; [exact K45|]. intros E Hm Hf. apply (log_l45_sound _ _ _ _ _ _ _ E Hm). now apply log_found_of_fits.
+Qed.
+
+Theorem judge_log_sound c cd t p d : judge_log c = verdict cd t p d -> cd = 0%Z \/ cd = 1%Z ->
+  (cd = 0%Z -> log_case_ok c) /\ (cd = 1%Z -> log_case_borderline c).
+Proof.
+  intros H Hc. destruct (judge_log_groups c cd t p d H Hc) as (ao & bo & Gs). split; intros ->.
+  - apply (log_groups_case G_exact L_exact 0%Z c ao bo); [| |exact Gs].
+    + intros E A P K HP. apply HP. now apply gok_code0 in K.
+    + intros Hh amb P K HP. apply HP. now apply lok_code0 in K.
+  - apply (log_groups_case G_border L_border 1%Z c ao bo); [| |exact Gs].
+    + intros E A P [K|(_ & K1 & K2)] HP; [left; auto | right; auto].
+    + intros Hh amb P [K|(_ & K1 & K2)] HP; [left; auto | right; auto].
 Qed.
